@@ -1,3 +1,485 @@
-import PytezosModel.Michelson.Arith
+import PytezosModel.Proofs.C16Impl
+/-! C16 — arithmetic and numeric conversions are exact.
+
+Every theorem is about `Impl.Arith.*`, the mirror of `instructions/arithmetic.py` / `boolean.py` driven by the tables
+regenerated from the source, for ALL operand values (unbounded `Int`s, byte strings of any length) and all operand
+types of the model (int, nat, mutez, timestamp, bytes, bool).  `Except.toOption` forgets *which* error class a failure
+has; the exact class is stated in the `…_exact` corollaries.
+
+Not covered (stated in evidence): AND/OR/XOR/NOT/LSL/LSR on `bytes` operands — pytezos has no implementation
+(dispatch assertion), so the theorems below prove that they FAIL there; BLS12-381 rows (C21). -/
+set_option linter.unusedSimpArgs false
 namespace C16
+open Impl.Arith Generated.C16 PyNum
+open Spec.Arith
+
+/-- ADD: for every pair of operands the interpreter's result is the Michelson one — the exact sum with the result
+type of the table, a failure when the table has no row, and for mutez a failure exactly when the sum is ≥ 2^63 -/
+theorem add_spec (a b : Val) : (Impl.Arith.add a b).toOption = Spec.Arith.add a b := by
+  rcases a with ⟨ta, x⟩ | bs | p <;> rcases b with ⟨tb, y⟩ | bs' | q
+  · cases ta <;> cases tb <;>
+      first
+      | rfl
+      | exact wrap_fromValue_spec .nat _
+      | exact wrap_fromValue_spec .mutez _
+  all_goals (first | rfl | (cases ta <;> rfl) | (cases tb <;> rfl))
+
+theorem sub_spec (a b : Val) : (Impl.Arith.sub a b).toOption = Spec.Arith.sub a b := by
+  rcases a with ⟨ta, x⟩ | bs | p <;> rcases b with ⟨tb, y⟩ | bs' | q
+  · cases ta <;> cases tb <;>
+      first
+      | rfl
+      | exact wrap_fromValue_spec .nat _
+      | exact wrap_fromValue_spec .mutez _
+  all_goals (first | rfl | (cases ta <;> rfl) | (cases tb <;> rfl))
+
+theorem mul_spec (a b : Val) : (Impl.Arith.mul a b).toOption = Spec.Arith.mul a b := by
+  rcases a with ⟨ta, x⟩ | bs | p <;> rcases b with ⟨tb, y⟩ | bs' | q
+  · cases ta <;> cases tb <;>
+      first
+      | rfl
+      | exact wrap_fromValue_spec .nat _
+      | exact wrap_fromValue_spec .mutez _
+  all_goals (first | rfl | (cases ta <;> rfl) | (cases tb <;> rfl))
+
+theorem ediv_spec (a b : Val) : (Impl.Arith.ediv a b).toOption = Spec.Arith.ediv a b := by
+  rcases a with ⟨ta, x⟩ | bs | p <;> rcases b with ⟨tb, y⟩ | bs' | q
+  · cases ta <;> cases tb <;>
+      first
+      | rfl
+      | exact edivNum_spec .nat .nat _ _
+      | exact edivNum_spec .int .nat _ _
+      | exact edivNum_spec .mutez .mutez _ _
+      | exact edivNum_spec .nat .mutez _ _
+  all_goals (first | rfl | (cases ta <;> rfl) | (cases tb <;> rfl))
+
+theorem sub_mutez_spec (a b : Val) : (Impl.Arith.subMutez a b).toOption = Spec.Arith.subMutez a b := by
+  rcases a with ⟨ta, x⟩ | bs | p <;> rcases b with ⟨tb, y⟩ | bs' | q
+  · cases ta <;> cases tb <;> try rfl
+    show (if x < y then Except.ok (Out.none1 .mutez) else
+            match fromValue .mutez (x - y) with
+            | .ok v => .ok (.some1 v)
+            | .error e => .error e).toOption = _
+    unfold Spec.Arith.subMutez
+    by_cases h : x < y
+    · have : x - y < 0 := by omega
+      simp [h, this, Except.toOption]
+    · have : ¬ (x - y < 0) := by omega
+      simp only [h, this, if_false]
+      have e : (fromValue .mutez (x - y)).toOption = mk .mutez (x - y) := fromValue_spec .mutez (x - y)
+      rw [← e]
+      generalize fromValue Prim.mutez (x - y) = r
+      cases r <;> rfl
+  all_goals (first | rfl | (cases ta <;> rfl) | (cases tb <;> rfl))
+
+/-- SUB_MUTEZ on actual mutez amounts: `None` iff the difference is negative, never a failure -/
+theorem sub_mutez_exact (x y : Int) (hx : (Val.num .mutez x).WF) (hy : (Val.num .mutez y).WF) :
+    Impl.Arith.subMutez (.num .mutez x) (.num .mutez y) =
+      .ok (if x < y then .none1 .mutez else .some1 (.num .mutez (x - y))) := by
+  show (if x < y then Except.ok (Out.none1 .mutez) else
+            match fromValue .mutez (x - y) with
+            | .ok v => .ok (.some1 v)
+            | .error e => .error e) = _
+  simp only [Val.WF] at hx hy
+  by_cases h : x < y
+  · simp [h]
+  · have h0 : ¬ (x - y < 0) := by omega
+    have hb := bits63 (x - y) (by omega)
+    have : ¬ (63 < bitLength (x - y)) := by omega
+    simp [h, fromValue_mutez, h0, this]
+
+theorem abs_spec (a : Val) : (Impl.Arith.abs a).toOption = Spec.Arith.abs a := by
+  rcases a with ⟨ta, x⟩ | bs | p
+  · cases ta <;> try rfl
+    show (wrap (fromValue .nat (PyNum.abs x))).toOption = _
+    rw [fromValue_nat]
+    unfold PyNum.abs Spec.Arith.abs
+    by_cases h : x < 0
+    · have : ¬ (0 < x) := by omega
+      have e : ((x.natAbs : Nat) : Int) = -x := by omega
+      simp [h, this, wrap, Except.toOption, e]
+    · have e : ((x.natAbs : Nat) : Int) = x := by omega
+      simp [h, wrap, Except.toOption, e]
+  all_goals rfl
+
+theorem neg_spec (a : Val) : (Impl.Arith.neg a).toOption = Spec.Arith.neg a := by
+  rcases a with ⟨ta, x⟩ | bs | p
+  · cases ta <;> rfl
+  all_goals rfl
+
+theorem isnat_spec (a : Val) : (Impl.Arith.isnat a).toOption = Spec.Arith.isnat a := by
+  rcases a with ⟨ta, x⟩ | bs | p
+  · cases ta <;> try rfl
+    show (if x ≥ 0 then
+            match fromValue .nat x with
+            | .ok v => Except.ok (Out.some1 v)
+            | .error e => .error e
+          else .ok (.none1 .nat)).toOption = _
+    unfold Spec.Arith.isnat
+    by_cases h : 0 ≤ x
+    · have : ¬ x < 0 := by omega
+      simp [h, fromValue_nat, this, Except.toOption]
+    · simp [h, Except.toOption]
+  all_goals rfl
+
+
+theorem lsl_spec (a b : Val) : (Impl.Arith.lsl a b).toOption = Spec.Arith.lsl a b := by
+  rcases a with ⟨ta, x⟩ | bs | p <;> rcases b with ⟨tb, y⟩ | bs' | q
+  · cases ta <;> cases tb <;> try rfl
+    show (executeShift lslBody PyNum.shl (.num .nat x) (.num .nat y)).toOption = _
+    rw [shift_unfold _ rfl]
+    unfold Spec.Arith.lsl
+    by_cases h : y < 257
+    · have : y ≤ 256 := by omega
+      simp only [h, this, not_true_eq_false, if_false, if_true]
+      exact wrap_fromValue_spec .nat _
+    · have : ¬ y ≤ 256 := by omega
+      simp [h, this, Except.toOption]
+  all_goals (first | rfl | (cases ta <;> rfl) | (cases tb <;> rfl))
+
+
+theorem lsr_spec (a b : Val) : (Impl.Arith.lsr a b).toOption = Spec.Arith.lsr a b := by
+  rcases a with ⟨ta, x⟩ | bs | p <;> rcases b with ⟨tb, y⟩ | bs' | q
+  · cases ta <;> cases tb <;> try rfl
+    show (executeShift lsrBody PyNum.shr (.num .nat x) (.num .nat y)).toOption = _
+    rw [shift_unfold _ rfl]
+    unfold Spec.Arith.lsr
+    by_cases h : y < 257
+    · have : y ≤ 256 := by omega
+      simp only [h, this, not_true_eq_false, if_false, if_true, shr_eq]
+      exact wrap_fromValue_spec .nat _
+    · have : ¬ y ≤ 256 := by omega
+      simp [h, this, Except.toOption]
+  all_goals (first | rfl | (cases ta <;> rfl) | (cases tb <;> rfl))
+
+/-- on naturals: LSL/LSR fail iff the shift exceeds 256, otherwise they are `a * 2^s` and `⌊a / 2^s⌋` -/
+theorem lsl_nat (a s : Nat) :
+    Impl.Arith.lsl (.num .nat a) (.num .nat s) = if s ≤ 256 then .ok (.one (.num .nat ((a * 2 ^ s : Nat) : Int))) else .error .assertion := by
+  show executeShift lslBody PyNum.shl (.num .nat a) (.num .nat s) = _
+  rw [shift_unfold _ rfl]
+  by_cases h : s ≤ 256
+  · have h1 : (s : Int) < 257 := by omega
+    have h2 : ¬ ((a : Int) * 2 ^ s < 0) := by
+      have : (0 : Int) ≤ (a : Int) * 2 ^ s := Int.mul_nonneg (Int.natCast_nonneg _) (Int.le_of_lt (Int.pow_pos (by omega)))
+      omega
+    simp [h, h1, fromValue_nat, PyNum.shl, wrap, h2]
+  · have h1 : ¬ ((s : Int) < 257) := by omega
+    simp [h, h1]
+
+theorem lsr_nat (a s : Nat) :
+    Impl.Arith.lsr (.num .nat a) (.num .nat s) = if s ≤ 256 then .ok (.one (.num .nat ((a / 2 ^ s : Nat) : Int))) else .error .assertion := by
+  show executeShift lsrBody PyNum.shr (.num .nat a) (.num .nat s) = _
+  rw [shift_unfold _ rfl]
+  by_cases h : s ≤ 256
+  · have h1 : (s : Int) < 257 := by omega
+    have e : (a : Int) / 2 ^ s = ((a / 2 ^ s : Nat) : Int) := by simp
+    have h2 : ¬ ((a : Int) / 2 ^ s < 0) := by
+      have : (0 : Int) ≤ ((a / 2 ^ s : Nat) : Int) := Int.natCast_nonneg _
+      rw [e]; omega
+    simp [h, h1, fromValue_nat, shr_eq, wrap, h2]
+  · have h1 : ¬ ((s : Int) < 257) := by omega
+    simp [h, h1]
+
+theorem int_spec (a : Val) (h : a.WF) : (Impl.Arith.int a).toOption =
+    match a with
+    | .num .nat x => some (.one (.num .int x))
+    | .num .mutez x => some (.one (.num .int x))      -- accepted by pytezos (MutezType is a NatType); not Michelson
+    | .bytes bs => some (.one (.num .int (Spec.Arith.beSigned bs)))
+    | _ => none := by
+  rcases a with ⟨ta, x⟩ | bs | p
+  · cases ta <;> rfl
+  · show (wrap (fromValue .int (PyNum.fromBytes bs true))).toOption = _
+    rw [fromBytes_signed_eq bs h]; rfl
+  · rfl
+
+theorem nat_spec (a : Val) : (Impl.Arith.nat a).toOption =
+    match a with
+    | .bytes bs => some (.one (.num .nat (Spec.Arith.beUnsigned bs)))
+    | _ => none := by
+  rcases a with ⟨ta, x⟩ | bs | p
+  · cases ta <;> rfl
+  · show (wrap (fromValue .nat (PyNum.fromBytes bs false))).toOption = _
+    rw [fromBytes_unsigned_eq, fromValue_nat]
+    have : ¬ ((Spec.Arith.beUnsigned bs : Int) < 0) := by omega
+    simp [this, wrap, Except.toOption]
+  · rfl
+
+theorem and_spec (a b : Val) (ha : a.WF) (hb : b.WF) :
+    match a, b with
+    | .bool p, .bool q => Impl.Arith.and a b = .ok (.one (.bool (p && q)))
+    | .num .nat x, .num .nat y => Impl.Arith.and a b = .ok (.one (.num .nat ((x.toNat &&& y.toNat : Nat))))
+    | .num .int x, .num .nat y =>
+        ∃ r : Nat, Impl.Arith.and a b = .ok (.one (.num .nat r)) ∧ ∀ i, r.testBit i = (bit x i && y.toNat.testBit i)
+    | .num .nat x, .num .int y =>      -- row of the pytezos table that Michelson does not have (operands swapped)
+        ∃ r : Nat, Impl.Arith.and a b = .ok (.one (.num .nat r)) ∧ ∀ i, r.testBit i = (x.toNat.testBit i && bit y i)
+    | _, _ => Impl.Arith.and a b = .error .assertion := by
+  rcases a with ⟨ta, x⟩ | bs | p <;> rcases b with ⟨tb, y⟩ | bs' | q
+  · cases ta <;> cases tb <;> try rfl
+    · -- int, nat
+      simp only [Val.WF] at hb
+      have h0 := and_nonneg_right x y hb
+      refine ⟨(PyNum.and x y).toNat, ?_, fun i => ?_⟩
+      · show wrap (fromValue .nat (PyNum.and x y)) = _
+        have : ¬ (PyNum.and x y < 0) := by omega
+        have e : (((PyNum.and x y).toNat : Nat) : Int) = PyNum.and x y := Int.toNat_of_nonneg h0
+        simp [fromValue_nat, this, wrap, e]
+      · rw [toNat_testBit _ h0, bit_and, toNat_testBit y hb]
+    · -- nat, int
+      simp only [Val.WF] at ha
+      have h0 := and_nonneg_left x y ha
+      refine ⟨(PyNum.and x y).toNat, ?_, fun i => ?_⟩
+      · show wrap (fromValue .nat (PyNum.and x y)) = _
+        have : ¬ (PyNum.and x y < 0) := by omega
+        have e : (((PyNum.and x y).toNat : Nat) : Int) = PyNum.and x y := Int.toNat_of_nonneg h0
+        simp [fromValue_nat, this, wrap, e]
+      · rw [toNat_testBit _ h0, bit_and, toNat_testBit x ha]
+    · -- nat, nat
+      simp only [Val.WF] at ha hb
+      show wrap (fromValue .nat (PyNum.and x y)) = _
+      rw [and_nat x y ha hb, fromValue_nat]
+      have : ¬ (((x.toNat &&& y.toNat : Nat) : Int) < 0) := by omega
+      simp [this, wrap]
+  all_goals (first | rfl | (cases ta <;> rfl) | (cases tb <;> rfl))
+
+theorem or_spec (a b : Val) (ha : a.WF) (hb : b.WF) :
+    match a, b with
+    | .bool p, .bool q => Impl.Arith.or a b = .ok (.one (.bool (p || q)))
+    | .num .nat x, .num .nat y => Impl.Arith.or a b = .ok (.one (.num .nat ((x.toNat ||| y.toNat : Nat))))
+    | _, _ => Impl.Arith.or a b = .error .assertion := by
+  rcases a with ⟨ta, x⟩ | bs | p <;> rcases b with ⟨tb, y⟩ | bs' | q
+  · cases ta <;> cases tb <;> try rfl
+    simp only [Val.WF] at ha hb
+    show wrap (fromValue .nat (PyNum.or x y)) = _
+    rw [or_nat x y ha hb, fromValue_nat]
+    have : ¬ (((x.toNat ||| y.toNat : Nat) : Int) < 0) := by omega
+    simp [this, wrap]
+  all_goals (first | rfl | (cases ta <;> rfl) | (cases tb <;> rfl))
+
+theorem xor_spec (a b : Val) (ha : a.WF) (hb : b.WF) :
+    match a, b with
+    | .bool p, .bool q => Impl.Arith.xor a b = .ok (.one (.bool (p != q)))
+    | .num .nat x, .num .nat y => Impl.Arith.xor a b = .ok (.one (.num .nat ((x.toNat ^^^ y.toNat : Nat))))
+    | _, _ => Impl.Arith.xor a b = .error .assertion := by
+  rcases a with ⟨ta, x⟩ | bs | p <;> rcases b with ⟨tb, y⟩ | bs' | q
+  · cases ta <;> cases tb <;> try rfl
+    simp only [Val.WF] at ha hb
+    show wrap (fromValue .nat (PyNum.xor x y)) = _
+    rw [xor_nat x y ha hb, fromValue_nat]
+    have : ¬ (((x.toNat ^^^ y.toNat : Nat) : Int) < 0) := by omega
+    simp [this, wrap]
+  all_goals (first | rfl | (cases ta <;> rfl) | (cases tb <;> rfl))
+
+theorem not_spec (a : Val) :
+    match a with
+    | .bool p => Impl.Arith.not a = .ok (.one (.bool (!p)))
+    | .num .nat x => Impl.Arith.not a = .ok (.one (.num .int (-x - 1))) ∧ ∀ i, bit (-x - 1) i = !bit x i
+    | .num .int x => Impl.Arith.not a = .ok (.one (.num .int (-x - 1))) ∧ ∀ i, bit (-x - 1) i = !bit x i
+    | _ => Impl.Arith.not a = .error .assertion := by
+  have hinv (x : Int) : PyNum.invert x = -x - 1 := by unfold PyNum.invert; omega
+  rcases a with ⟨ta, x⟩ | bs | p
+  · cases ta <;> try rfl
+    · refine ⟨?_, fun i => by rw [← hinv, bit_invert]⟩
+      show wrap (fromValue .int (PyNum.invert x)) = _
+      rw [hinv]; rfl
+    · refine ⟨?_, fun i => by rw [← hinv, bit_invert]⟩
+      show wrap (fromValue .int (PyNum.invert x)) = _
+      rw [hinv]; rfl
+  all_goals rfl
+
+
+/-- `PUSH int z ; BYTES ; INT` leaves `z`, for every integer -/
+theorem bytes_int_roundtrip (z : Int) : Impl.Arith.bytesInt (.num .int z) = .ok (.one (.num .int z)) := by
+  unfold bytesInt
+  rw [bytes_int_unfold, toBytes_int]
+  show wrap (fromValue .int (PyNum.fromBytes _ true)) = _
+  by_cases h : z = 0
+  · subst h; rfl
+  · rw [fromBytes_toBytes_signed z (intLen z) _ (intLen_pos z h) (toBytes_int z)]; rfl
+
+/-- BYTES of an int is a two's-complement big-endian encoding of it, and no encoding is shorter; 0 ↦ empty -/
+theorem bytes_int_shortest (z : Int) :
+    ∃ bs, Impl.Arith.bytes (.num .int z) = .ok (.one (.bytes bs)) ∧ (Val.bytes bs).WF ∧ beSigned bs = z ∧
+      ∀ bs' : List Nat, (Val.bytes bs').WF → beSigned bs' = z → bs.length ≤ bs'.length := by
+  refine ⟨toBytesBE (intLen z) (z % 256 ^ intLen z).toNat, ?_, toBytesBE_wf _ _, ?_, ?_⟩
+  · rw [bytes_int_unfold, toBytes_int]
+  · rw [← fromBytes_signed_eq _ (toBytesBE_wf _ _)]
+    by_cases h : z = 0
+    · subst h; rfl
+    · exact fromBytes_toBytes_signed z (intLen z) _ (intLen_pos z h) (toBytes_int z)
+  · intro bs' hwf hdec
+    rw [toBytesBE_length]
+    rw [← fromBytes_signed_eq _ hwf] at hdec
+    by_cases h : z = 0
+    · subst h; simp [intLen]
+    · apply Classical.byContradiction
+      intro hlt
+      have hlt' : bs'.length < signedLen z := by
+        have : intLen z = signedLen z := by simp [intLen, h]
+        omega
+      by_cases hne : bs' = []
+      · subst hne; exact h hdec.symm
+      · have hr := fromBytes_signed_range bs' hwf hne
+        rw [hdec] at hr
+        exact signedLen_minimal z h bs'.length (List.length_pos_iff.2 hne) hlt' hr
+
+
+/-- `PUSH nat n ; BYTES ; NAT` leaves `n` -/
+theorem bytes_nat_roundtrip (n : Int) (h : (Val.num .nat n).WF) :
+    Impl.Arith.bytesNat (.num .nat n) = .ok (.one (.num .nat n)) := by
+  simp only [Val.WF] at h
+  unfold bytesNat
+  rw [bytes_nat_unfold, toBytes_nat n h]
+  show wrap (fromValue .nat (PyNum.fromBytes _ false)) = _
+  have : PyNum.fromBytes (toBytesBE (unsignedLen n) n.toNat) false = n := by
+    unfold PyNum.fromBytes
+    simp only [Bool.false_eq_true, false_and, if_false]
+    rw [fromBytesBE_toBytesBE _ _ (nat_fits n h)]
+    omega
+  rw [this, fromValue_nat]
+  have : ¬ n < 0 := by omega
+  simp [this, wrap]
+
+/-- BYTES of a nat is its shortest big-endian encoding (no leading zero byte; 0 ↦ empty) -/
+theorem bytes_nat_shortest (n : Int) (h : (Val.num .nat n).WF) :
+    ∃ bs, Impl.Arith.bytes (.num .nat n) = .ok (.one (.bytes bs)) ∧ (Val.bytes bs).WF ∧ (beUnsigned bs : Int) = n ∧
+      ∀ bs' : List Nat, (Val.bytes bs').WF → (beUnsigned bs' : Int) = n → bs.length ≤ bs'.length := by
+  simp only [Val.WF] at h
+  refine ⟨toBytesBE (unsignedLen n) n.toNat, ?_, toBytesBE_wf _ _, ?_, ?_⟩
+  · rw [bytes_nat_unfold, toBytes_nat n h]
+  · rw [← fromBytesBE_eq_beUnsigned, fromBytesBE_toBytesBE _ _ (nat_fits n h)]; omega
+  · intro bs' hwf hdec
+    rw [toBytesBE_length]
+    apply unsignedLen_minimal n h
+    have := fromBytesBE_lt bs' hwf
+    rw [fromBytesBE_eq_beUnsigned] at this
+    have hc : ((256 ^ bs'.length : Nat) : Int) = (256 : Int) ^ bs'.length := by simp
+    rw [← hdec, ← hc]
+    exact Int.ofNat_lt.2 this
+
+
+/-! ### mutez range: a mutez result exists iff `0 ≤ x < 2^63`; the failure is an overflow exactly above the range -/
+
+theorem mutez_range (x : Int) : (∃ v, fromValue .mutez x = .ok v) ↔ (0 ≤ x ∧ x < 2 ^ 63) := by
+  rw [fromValue_mutez]
+  by_cases h : x < 0
+  · simp [h]; omega
+  · have hb := bits63 x (by omega)
+    by_cases h2 : 63 < bitLength x
+    · simp [h, h2]; omega
+    · simp [h, h2]; omega
+
+theorem mutez_overflow_exact (x : Int) (h : 0 ≤ x) : fromValue .mutez x = .error .overflow ↔ 2 ^ 63 ≤ x := by
+  rw [fromValue_mutez]
+  have hb := bits63 x h
+  have h0 : ¬ x < 0 := by omega
+  by_cases h2 : 63 < bitLength x
+  · simp [h0, h2]; omega
+  · simp [h0, h2]; omega
+
+/-- every value built by a `from_value` constructor is in its type's range -/
+theorem fromValue_wf (t : NTy) (x : Int) (v : Val) (h : fromValue t.prim x = .ok v) : v.WF := by
+  have hs := fromValue_spec t x
+  rw [h] at hs
+  cases t <;> simp only [Except.toOption, Spec.Arith.mk] at hs
+  · cases hs; trivial
+  · split at hs
+    · cases hs; assumption
+    · cases hs
+  · split at hs
+    · cases hs; assumption
+    · cases hs
+  · cases hs; trivial
+
+/-- ADD on mutez: the sum, or an OverflowError exactly when it does not fit 63 bits -/
+theorem add_mutez_exact (x y : Int) (hx : (Val.num .mutez x).WF) (hy : (Val.num .mutez y).WF) :
+    Impl.Arith.add (.num .mutez x) (.num .mutez y) =
+      if x + y < 2 ^ 63 then .ok (.one (.num .mutez (x + y))) else .error .overflow := by
+  show wrap (fromValue .mutez (x + y)) = _
+  simp only [Val.WF] at hx hy
+  have h0 : ¬ (x + y < 0) := by omega
+  have hb := bits63 (x + y) (by omega)
+  rw [fromValue_mutez]
+  by_cases h : x + y < 2 ^ 63
+  · have : ¬ 63 < bitLength (x + y) := by omega
+    rw [if_neg h0, if_neg this, if_pos h]; rfl
+  · have : 63 < bitLength (x + y) := by omega
+    rw [if_neg h0, if_pos this, if_neg h]; rfl
+
+/-- MUL mutez × nat likewise -/
+theorem mul_mutez_exact (x y : Int) (hx : (Val.num .mutez x).WF) (hy : (Val.num .nat y).WF) :
+    Impl.Arith.mul (.num .mutez x) (.num .nat y) =
+      if x * y < 2 ^ 63 then .ok (.one (.num .mutez (x * y))) else .error .overflow := by
+  show wrap (fromValue .mutez (x * y)) = _
+  simp only [Val.WF] at hx hy
+  have hm : 0 ≤ x * y := Int.mul_nonneg hx.1 hy
+  have h0 : ¬ (x * y < 0) := by omega
+  have hb := bits63 (x * y) hm
+  rw [fromValue_mutez]
+  by_cases h : x * y < 2 ^ 63
+  · have : ¬ 63 < bitLength (x * y) := by omega
+    rw [if_neg h0, if_neg this, if_pos h]; rfl
+  · have : 63 < bitLength (x * y) := by omega
+    rw [if_neg h0, if_pos this, if_neg h]; rfl
+
+/-! ### EDIV is Euclidean for every sign combination, and total on pushed operands -/
+
+theorem ediv_euclid (ta tb tq tr : NTy) (x y : Int) (hty : Spec.Arith.edivTy ta tb = some (tq, tr))
+    (hx : (Val.num ta x).WF) (hy : (Val.num tb y).WF) (hy0 : y ≠ 0) :
+    ∃ q r : Int, Impl.Arith.ediv (.num ta x) (.num tb y) = .ok (.some2 (.num tq q) (.num tr r)) ∧
+      x = q * y + r ∧ 0 ≤ r ∧ r < y.natAbs := by
+  refine ⟨x / y, x % y, ?_, ?_, Int.emod_nonneg x hy0, Int.emod_lt x hy0⟩
+  · apply toOption_eq_some
+    rw [ediv_spec]
+    have hr0 := Int.emod_nonneg x hy0
+    have hdecomp := Int.mul_ediv_add_emod x y
+    cases ta <;> cases tb <;> simp only [Spec.Arith.edivTy, Option.some.injEq, Prod.mk.injEq, reduceCtorEq] at hty <;>
+      obtain ⟨rfl, rfl⟩ := hty <;> simp only [Val.WF] at hx hy <;>
+      simp only [Spec.Arith.ediv, Spec.Arith.edivTy, Spec.Arith.edivAt, hy0, if_false, Spec.Arith.mk, hr0, if_true]
+    · -- nat / nat
+      have : 0 ≤ x / y := Int.ediv_nonneg hx hy
+      simp [this]
+    · -- mutez / nat : quotient and remainder are mutez
+      have hq0 : 0 ≤ x / y := Int.ediv_nonneg hx.1 hy
+      have hmul : 0 ≤ y * (x / y) := Int.mul_nonneg hy hq0
+      have hq1 : x / y ≤ x := Int.ediv_le_self y hx.1
+      have hq : 0 ≤ x / y ∧ x / y < 2 ^ 63 := by omega
+      have hr : 0 ≤ x % y ∧ x % y < 2 ^ 63 := by omega
+      simp only [hq, hr, and_self, if_true]
+    · -- mutez / mutez : nat quotient, mutez remainder
+      have hq0 : 0 ≤ x / y := Int.ediv_nonneg hx.1 hy.1
+      have hlt := Int.emod_lt_of_pos x (show 0 < y by omega)
+      have hr : 0 ≤ x % y ∧ x % y < 2 ^ 63 := by omega
+      simp only [hq0, hr, and_self, if_true]
+  · have := Int.mul_ediv_add_emod x y
+    rw [Int.mul_comm]; omega
+
+theorem ediv_zero (ta tb tq tr : NTy) (x : Int) (hty : Spec.Arith.edivTy ta tb = some (tq, tr)) :
+    Impl.Arith.ediv (.num ta x) (.num tb 0) = .ok (.none2 tq.prim tr.prim) := by
+  apply toOption_eq_some
+  rw [ediv_spec]
+  simp [Spec.Arith.ediv, hty, Spec.Arith.edivAt]
+
+/-! ### non-vacuity: concrete instances, evaluated by the kernel -/
+
+example : Impl.Arith.add (.num .int (-5)) (.num .nat 3) = .ok (.one (.num .int (-2))) := by rfl
+example : Impl.Arith.add (.num .mutez (2 ^ 63 - 1)) (.num .mutez 1) = .error .overflow := by
+  rw [add_mutez_exact _ _ (by decide) (by decide)]; rfl
+example : Impl.Arith.add (.num .nat 1) (.bytes [1]) = .error .assertion := by rfl
+example : Impl.Arith.subMutez (.num .mutez 0) (.num .mutez 1) = .ok (.none1 .mutez) := by
+  rw [sub_mutez_exact _ _ (by decide) (by decide)]; rfl
+example : Impl.Arith.ediv (.num .int 7) (.num .int (-3)) = .ok (.some2 (.num .int (-2)) (.num .nat 1)) := by rfl
+example : Impl.Arith.ediv (.num .int (-7)) (.num .int (-3)) = .ok (.some2 (.num .int 3) (.num .nat 2)) := by rfl
+example : Impl.Arith.ediv (.num .mutez 7) (.num .nat 0) = .ok (.none2 .mutez .mutez) := by rfl
+example : Impl.Arith.lsl (.num .nat 1) (.num .nat 257) = .error .assertion := by rfl
+example : Impl.Arith.lsl (.num .nat 3) (.num .nat 256) = .ok (.one (.num .nat (3 * 2 ^ 256))) := by rfl
+example : Impl.Arith.and (.num .int (-3)) (.num .nat 5) = .ok (.one (.num .nat 5)) := by rfl
+example : Impl.Arith.not (.num .nat 5) = .ok (.one (.num .int (-6))) := by rfl
+example : Impl.Arith.and (.bytes [255]) (.bytes [15]) = .error .assertion := by rfl   -- not implemented by pytezos
+example : Impl.Arith.bytes (.num .int 128) = .ok (.one (.bytes [0, 128])) := by rfl
+example : Impl.Arith.bytes (.num .int (-129)) = .ok (.one (.bytes [255, 127])) := by rfl
+example : Impl.Arith.bytes (.num .int 0) = .ok (.one (.bytes [])) := by rfl
+example : Impl.Arith.bytes (.num .nat 128) = .ok (.one (.bytes [128])) := by rfl
+example : Impl.Arith.bytesInt (.num .int 128) = .ok (.one (.num .int 128)) := bytes_int_roundtrip 128
+example : Impl.Arith.int (.bytes [255, 127]) = .ok (.one (.num .int (-129))) := by rfl
+
 end C16
